@@ -7,6 +7,7 @@ import (
 	"go/token"
 	"go/types"
 	"os"
+	"regexp"
 	"sort"
 	"strings"
 
@@ -193,6 +194,7 @@ func init() {
 		optionSemantics(w, r, "C01")
 		wireCppBeName(wc, r, "C01", []string{"enc"}, 1<<kBasic|1<<kLength|1<<kCheckSum)
 		wirePaddingSiblings(wc, r, "C01")
+		wirePaddingOutcomes(wc, r, "C01")
 		wireAssumptions(r)
 	})
 	register("C02", "Sensitivity of the decode emitters (as C01, for decoders) plus encode/decode symmetry per language: for each cell the decoder's dependence set must include every wire-determining input its own encoder depends on - a decoder that ignores an option its encoder honours cannot invert it. "+
@@ -220,6 +222,7 @@ func init() {
 		wirePairDedup(w, wc, r, "C03/dispatch-arm-per-key", "dec")
 		optionSemantics(w, r, "C03")
 		wirePaddingSiblings(wc, r, "C03")
+		wirePaddingOutcomes(wc, r, "C03")
 		wirePadSpellings(w, wc, r)
 		wireTables(w, r, "C03")
 		wireAssumptions(r)
@@ -722,6 +725,48 @@ func wireCppBeName(wc *wireCtx, r *Report, prop string, dirs []string, kinds uin
 	}
 }
 
+var leFlavourRE = regexp.MustCompile(`_le\b|\ble_|[a-z0-9_]LE\b|^LE$|LittleEndian|little_endian`)
+
+func leFlavoured(s string) bool { return leFlavourRE.MatchString(s) }
+
+// stringConsts: the string constants a value is built from (format strings, suffixes), through concatenation, phis and call arguments.
+func stringConsts(v ssa.Value) []string {
+	var out []string
+	seen := map[ssa.Value]bool{}
+	var walk func(v ssa.Value, d int)
+	walk = func(v ssa.Value, d int) {
+		if v == nil || seen[v] || d > 12 {
+			return
+		}
+		seen[v] = true
+		switch x := v.(type) {
+		case *ssa.Const:
+			if s, ok := constString(x); ok && s != "" {
+				out = append(out, s)
+			}
+		case *ssa.BinOp:
+			walk(x.X, d+1)
+			walk(x.Y, d+1)
+		case *ssa.Phi:
+			for _, e := range x.Edges {
+				walk(e, d+1)
+			}
+		case *ssa.Call:
+			for _, a := range x.Call.Args {
+				walk(a, d+1)
+			}
+		case *ssa.MakeInterface:
+			walk(x.X, d+1)
+		case *ssa.Convert:
+			walk(x.X, d+1)
+		case *ssa.ChangeType:
+			walk(x.X, d+1)
+		}
+	}
+	walk(v, 0)
+	return out
+}
+
 func allEmpty(l []ast.Stmt) bool {
 	for _, st := range l {
 		if _, ok := st.(*ast.EmptyStmt); !ok {
@@ -774,13 +819,16 @@ func wireLEColumn(wc *wireCtx, r *Report, prop, dir string) {
 	rule := prop + "/le-column"
 	n := 0
 	for _, ga := range anchorTable {
-		if ga.Table == "" || ga.Lang == "go" || (dir == "enc" && ga.Lang == "lua") {
+		if ga.Table == "" || (dir == "enc" && ga.Lang == "lua") {
 			continue
 		}
 		for _, fn := range wc.anchors[ga.Lang][dir] {
 			c := wc.m.ctx(fn, nil)
 			counts := map[string]int{}
 			verdict := func(leCols, beCols map[string]bool, leBits, beBits src, pos string) {
+				if ga.Lang == "go" {
+					return // Go's runtime is parameterised by a byte-order suffix, there is no Le column (polarity is still judged)
+				}
 				applies := false
 				if cp := beCounterpart[ga.Lang]; cp != "" {
 					applies = beCols[cp]
@@ -815,6 +863,35 @@ func wireLEColumn(wc *wireCtx, r *Report, prop, dir string) {
 					r.fail(rule, key, pos, "the big-endian side names the read/write method from the type ("+strings.Join(sortedBoolKeys(beCols), ",")+") but the little-endian side does not take it from the table's Le column: for types whose little-endian spelling is irregular (one-byte types) the emitted call does not exist")
 				}
 			}
+			// the text chosen when LittleEndian is true is the little-endian flavoured one (..._le, ...LE, le_...), not the other way round
+			polarity := func(leTexts, beTexts []string, pos string) {
+				lf, bf := false, false
+				for _, t := range leTexts {
+					if leFlavoured(t) {
+						lf = true
+					}
+				}
+				for _, t := range beTexts {
+					if leFlavoured(t) {
+						bf = true
+					}
+				}
+				if !lf && !bf {
+					return
+				}
+				n++
+				kb := fmt.Sprintf("%s byte-order polarity", fnKey(fn))
+				counts[kb]++
+				key := kb
+				if counts[kb] > 1 {
+					key = fmt.Sprintf("%s#%d", kb, counts[kb])
+				}
+				if bf && !lf {
+					r.fail(rule, key, pos, "the little-endian spelling of the emitted call is selected when LittleEndian is FALSE and the plain one when it is true: the two byte orders are swapped")
+				} else {
+					r.pass(rule, key, pos, "")
+				}
+			}
 			for _, b := range fn.Blocks {
 				cond := branchCond(b)
 				if cond == nil {
@@ -830,7 +907,15 @@ func wireLEColumn(wc *wireCtx, r *Report, prop, dir string) {
 				}
 				leBlk, beBlk := b.Succs[leSucc], b.Succs[1-leSucc]
 				// triangle/diamond with a phi at the join
-				for _, jb := range leBlk.Succs {
+				joins := append([]*ssa.BasicBlock{}, leBlk.Succs...)
+				joins = append(joins, leBlk, beBlk) // an arm without statements jumps straight to the join
+				joins = append(joins, beBlk.Succs...)
+				seenJoin := map[*ssa.BasicBlock]bool{}
+				for _, jb := range joins {
+					if seenJoin[jb] {
+						continue
+					}
+					seenJoin[jb] = true
 					for _, ins := range jb.Instrs {
 						phi, ok := ins.(*ssa.Phi)
 						if !ok {
@@ -840,9 +925,13 @@ func wireLEColumn(wc *wireCtx, r *Report, prop, dir string) {
 						for i, e := range phi.Edges {
 							p := jb.Preds[i]
 							switch {
-							case p == leBlk && len(leBlk.Preds) == 1:
+							case p == leBlk && len(leBlk.Preds) == 1 && jb != leBlk:
 								lev = e
-							case p == b || (p == beBlk && len(beBlk.Preds) == 1):
+							case p == beBlk && len(beBlk.Preds) == 1 && jb != beBlk:
+								bev = e
+							case p == b && jb == leBlk:
+								lev = e // the little-endian edge goes straight to the join
+							case p == b && jb == beBlk:
 								bev = e
 							}
 						}
@@ -852,7 +941,19 @@ func wireLEColumn(wc *wireCtx, r *Report, prop, dir string) {
 						lc, bc := map[string]bool{}, map[string]bool{}
 						tableCols(lev, lc, map[ssa.Value]bool{}, 0)
 						tableCols(bev, bc, map[ssa.Value]bool{}, 0)
-						verdict(lc, bc, c.deps(lev), c.deps(bev), wc.m.w.instrPos(b.Instrs[len(b.Instrs)-1]))
+						leTexts, beTexts := stringConsts(lev), stringConsts(bev)
+						flav := false
+						for _, t := range append(append([]string{}, leTexts...), beTexts...) {
+							if leFlavoured(t) {
+								flav = true
+							}
+						}
+						// a choice between two plain type names (no column, no _le spelling on either side) selects a width, not an
+						// accessor: the accessor is chosen where that name is used
+						if len(lc) > 0 || len(bc) > 0 || flav {
+							verdict(lc, bc, c.deps(lev), c.deps(bev), wc.m.w.instrPos(b.Instrs[len(b.Instrs)-1]))
+						}
+						polarity(leTexts, beTexts, wc.m.w.instrPos(b.Instrs[len(b.Instrs)-1]))
 					}
 				}
 				// arm form: emission sites directly in the two arms
@@ -860,6 +961,7 @@ func wireLEColumn(wc *wireCtx, r *Report, prop, dir string) {
 				lc, bc := map[string]bool{}, map[string]bool{}
 				var lb, bb src
 				nl, nb := 0, 0
+				var lConsts, bConsts []string
 				for _, s := range wc.m.sitesOf(fn) {
 					for _, d := range ff.cd.ctrl[s.instr.Block()] {
 						if d.Branch != b {
@@ -870,15 +972,31 @@ func wireLEColumn(wc *wireCtx, r *Report, prop, dir string) {
 							tableCols(s.val, lc, map[ssa.Value]bool{}, 0)
 							lb |= data
 							nl++
+							lConsts = append(lConsts, stringConsts(s.val)...)
 						} else {
 							tableCols(s.val, bc, map[ssa.Value]bool{}, 0)
 							bb |= data
 							nb++
+							bConsts = append(bConsts, stringConsts(s.val)...)
 						}
 					}
 				}
 				if nl > 0 && nb > 0 {
+					polarity(lConsts, bConsts, wc.m.w.instrPos(b.Instrs[len(b.Instrs)-1]))
 					verdict(lc, bc, lb, bb, wc.m.w.instrPos(b.Instrs[len(b.Instrs)-1]))
+					// the two arms are written as copies that differ in the accessor only: they emit the same number of pieces
+					n++
+					kb := fmt.Sprintf("%s byte-order arms emit the same number of pieces", fnKey(fn))
+					counts[kb]++
+					key := kb
+					if counts[kb] > 1 {
+						key = fmt.Sprintf("%s#%d", kb, counts[kb])
+					}
+					if nl == nb {
+						r.pass(rule, key, wc.m.w.instrPos(b.Instrs[len(b.Instrs)-1]), fmt.Sprintf("%d each", nl))
+					} else {
+						r.fail(rule, key, wc.m.w.instrPos(b.Instrs[len(b.Instrs)-1]), fmt.Sprintf("the little-endian arm emits %d piece(s) of text and the big-endian arm %d: one byte order is missing a statement the other has", nl, nb))
+					}
 				}
 				// an arm that emits nothing while its sibling emits a type-derived accessor: one byte order gets no code at all
 				wireBits := sTY | sTBL | sSP | sAP | sLFT
